@@ -250,7 +250,7 @@ def _race_post(prop, tier, seed, work, goenv, repo, build_harness):
 
 META["C20"] = dict(
     level_text="Theorems (Lean): in the heap-machine model only the documented in-place operations write, and only their receiver; outputs depend only on the named arguments (repeatability); any interleaving of non-mutating calls yields, call for call, the sequential outputs. Correspondence: for random programs over shared objects (unsorted data with ties; a Sample aliasing a slice) every real call's observed write set is compared with the model's documented write set, every non-mutating call is repeated after the others and replayed from 16 goroutines with bitwise comparison, and the same programs run in a binary built with -race: every race report is a violation.",
-    level_note="Partial: data-race freedom is a property of the Go memory model and scheduler that the Lean model cannot exhibit; it is observed by the race detector on the schedules that occur, not proved. The theorems are true of the model by construction; the content is in the correspondence. API coverage = the op table of harness/c20.go (80 entry points); half of each program's calls dwell on a few entry points so that call-history dependence (memo tables, retained buffers) shows as a difference between first run, repeat and permuted concurrent replay.",
+    level_note="Partial: data-race freedom is a property of the Go memory model and scheduler that the Lean model cannot exhibit; it is observed by the race detector on the schedules that occur, not proved. The theorems are true of the model by construction; the content is in the correspondence. API coverage = the op table of harness/c20.go (83 entry points); half of each program's calls dwell on a few entry points so that call-history dependence (memo tables, retained buffers) shows as a difference between first run, repeat and permuted concurrent replay.",
     technique="Lean 4 frame/determinism theorems on a heap machine + write-set correspondence, bitwise replay and race-detector runs",
     rule="pure objs prefix block: 17 shared objects per program (slices, Samples incl. weighted and one aliasing a slice, graphs, KDE with zero or set Bandwidth, StreamStats, LinearHist, NodeMarks, Linear/Log scales, int slice, UDist) with unsorted, tie-rich data; a prefix of 4..14 random API calls incl. the documented mutators (frame checked per call), then a block of 12..40 non-mutating calls executed, repeated in shuffled order and replayed by 16 goroutines; first 150 programs (thorough 3000) also under -race. non-trivial = every program",
     exhaustive_part="",
